@@ -188,6 +188,20 @@ def run(ctx):
     ok = len(pt) == 1 and pc == (1, 1) and not worker.in_loop(pt[0][0])
     ctx.ob("R2.call-count-shape", "prepare_thread_fn", ok, worker.loc(pt[0][1]["span"]) if pt else worker.loc(),
            f"call sites {len(pt)}, per path {pc}, inside a loop: {bool(pt) and worker.in_loop(pt[0][0])}")
+    # no user callback runs while the worker holds the run's own lock (the group-index list): callbacks of different threads may
+    # wait for each other (rendezvous in prepare_thread), and a panic in one must not poison what the others still need
+    from ..analysis import GuardLiveness
+    glw = GuardLiveness(worker)
+    for uname in ("prepare_thread_fn", "prepare_iter_fn", "iter_fn", "measure_wrapper_begin_fn", "measure_wrapper_end_fn"):
+        for bd in [worker] + subs:
+            gl_b = glw if bd is worker else GuardLiveness(bd)
+            if not gl_b.guard_locals:
+                continue
+            for bb, t in (dyn_calls(bd, uname) if bd is worker else []):
+                live = [gl_b.guard_locals[l] for l in gl_b.live_at_term(bb)]
+                ctx.ob("R2.call-count-shape", f"{uname}.outside-the-run-lock", not live, bd.loc(t["span"]),
+                       f"user callback invoked with guards live: {live or 'none'}" +
+                       ("" if not live else " - every other thread of the run blocks on that lock until this callback returns: callbacks that wait for each other deadlock before the start barrier"))
     # iter_fn: inside exactly one loop in the worker closure, the loop iterates the prepared iter_state vector
     it = dyn_calls(worker, "iter_fn")
     ok = len(it) == 1 and worker.in_loop(it[0][0])
